@@ -286,6 +286,11 @@ class Array:
             env["VSHIM_RULES"] = ";".join(rules)
         if freeze:
             env["VSHIM_TIME"] = str(now if now is not None else self.clock)
+            # /dev/urandom is a deterministic stream that differs from command to command (the hash seed drawn by rehash
+            # must not be the seed drawn when the array was created)
+            rnd = random.Random(self.seed * 7919 + 13 + 104729 * self.ncmd)
+            with open(self.urandom, "wb") as f:
+                f.write(bytes(rnd.getrandbits(8) for _ in range(4096)))
             env["VSHIM_URANDOM"] = self.urandom
             env["VSHIM_STATFS"] = "1"
         if extra_env:
